@@ -126,6 +126,23 @@ def _verdict(o, fn, t, rts, what, node):
     if tm.has_opaque(t):
         o.undecided(f"{what}: the function contains a construct the summariser does not understand: {tm.show(t)[:200]}", fn, node or fn.node)
         return "undecided"
+    # The same repo method called with MORE arguments than in any reference spelling: a parameter was added to it (a memo
+    # table, an option).  What the callee does with it is not part of this formula: not comparable.
+    def _arities(x, acc):
+        if isinstance(x, tuple):
+            if len(x) == 3 and x[0] == "call" and isinstance(x[1], str) and x[1].startswith(".") and isinstance(x[2], tuple):
+                acc.setdefault(x[1], set()).add(len(x[2]))
+            for y in x:
+                _arities(y, acc)
+        return acc
+    ta = _arities(t, {})
+    ra = {}
+    for rt in rts:
+        _arities(rt, ra)
+    more = sorted(nm for nm, ns in ta.items() if nm in ra and max(ns) > max(ra[nm]))
+    if more:
+        o.undecided(f"{what}: the code calls {more} with more arguments than the formula does (a parameter was added to it): not comparable", fn, node or fn.node)
+        return "undecided"
     # A mutation of the formula (operator, index, bound, dropped or swapped factor) speaks the vocabulary of the
     # reference.  A term that brings in library calls / attributes / functions that no reference spelling mentions is a
     # different WAY of computing something - the rewrite rules are not complete for that, so it is not accused.
